@@ -29,7 +29,7 @@ RULE = ('one evaluation = one seeded run: a single-client sequence of 10-120 Deq
         'collections.deque; or 2-3 concurrent appenders/poppers under the seeded scheduler checked for linearizability against a '
         'deque with the same maxlen; non-trivial = at least 5 calls / a context switch; distinct = SHA-256 of program or event log')
 ASSUMPTIONS = ['values compare by == as collections.deque does; NaN values are not used']
-PROBES = ('own_temporary_directory', 'lifecycle', 'maxlen_discard', 'from_fanout', 'from_django', 'lock_wait')
+PROBES = ('own_temporary_directory', 'lifecycle', 'maxlen_discard', 'from_fanout', 'from_django', 'parent_calls', 'lock_wait')
 TECHNIQUE = 'deterministic simulation (seeded file/temp names, simulated processes) + differential testing against collections.deque; seeded schedules + linearizability for concurrent use'
 LEVEL_TEXT = ('seeded exploration of method sequences with lifecycle events, each call compared with collections.deque; concurrent '
               'producer/consumer interleavings are explored by the seeded scheduler and decided by a linearizability search.')
@@ -114,7 +114,25 @@ def gen_case(seed, tier):
     # the parent a Deque is obtained from may have been built with its own eviction settings: they are the parent's, a Deque never evicts
     cfg['parent_opts'] = rng.choice(({}, {}, {'eviction_policy': 'least-recently-used', 'size_limit': 2 ** 16, 'cull_limit': 10},
                                      {'eviction_policy': 'least-frequently-used', 'cull_limit': 2, 'statistics': 1, 'tag_index': 1}))
+    if cfg['origin'] in ('fanout', 'django') and rng.random() < 0.6:
+        # the parent goes about its own business meanwhile: its keys, its housekeeping - none of it concerns what it handed out
+        for _ in range(rng.randint(1, 4)):
+            prog.insert(rng.randint(0, len(prog)), {'op': 'parent', 'call': rng.choice(('clear', 'clear', 'expire', 'cull', 'evict', 'set', 'delete'))})
     return {'seed': seed, 'cfg': cfg, 'prog': prog}
+
+
+def parent_call(parent, call):
+    if call == 'set':
+        if type(parent).__name__ == 'DjangoCache':
+            parent.set('pk', 'parent value', timeout=30, tag='t')
+        else:
+            parent.set('pk', 'parent value', expire=30, tag='t')
+    elif call == 'delete':
+        parent.delete('pk')
+    elif call == 'evict':
+        parent.evict('t')
+    else:
+        getattr(parent, call)()
 
 
 def _norm(fn):
@@ -260,6 +278,10 @@ def run_seq(case):
                 dq.cache.close()
                 dq = dc.Deque(directory=directory, maxlen=maxlen)
                 probes['lifecycle'] = probes.get('lifecycle', 0) + 1
+                got = want = None
+            elif name == 'parent':
+                parent_call(parent, op['call'])
+                probes['parent_calls'] = probes.get('parent_calls', 0) + 1
                 got = want = None
             elif name == 'pickle':
                 dq = pickle.loads(pickle.dumps(dq))
